@@ -9,6 +9,7 @@ def handle (line : String) : String :=
   | ["reader", buf] => readerLine buf ""
   | ["cachestress", seed, g, overlap, _, _] => locksLine false seed g overlap
   | ["cachestress9", seed, g, overlap, _, _] => locksLine true seed g overlap
+  | ["producerx", rm, n, w, d] => producerxLine rm n w d
   | ["producer", proto, rm, seed, n, events] => producerLine proto rm seed n events
   | _ => "bad-op"
 
